@@ -10,6 +10,7 @@ import (
 	"github.com/google/uuid"
 	"google.golang.org/protobuf/types/known/durationpb"
 
+	"go.6river.tech/mmmbbb/actions"
 	"go.6river.tech/mmmbbb/grpc/pubsubpb"
 
 	"verif/harness/evd"
@@ -72,12 +73,86 @@ func TestC05fwd(t *testing.T) {
 				msg string
 				key string
 				pub int
+				// batch > 0: forwarded together with others by one sweep (one
+				// transaction): the order among them is not known
+				batch int
 			}
 
 			var arrivals []arrival
 			var trace []string
 			seenRow := map[string]bool{}
-			for step := 0; step < nsrc*k+2; step++ {
+			note := func(src string, batch int) {
+				// which copies have arrived is read off the dead-letter subscription's rows
+				rows, err := e.RawDB().QueryContext(context.Background(), `SELECT d.id, d.message_id FROM deliveries d JOIN subscriptions s ON d.subscription_id = s.id WHERE s.name = ?`, Q)
+				if err != nil {
+					t.Fatalf("rows: %v", err)
+				}
+				defer rows.Close()
+				for rows.Next() {
+					var id, mid any
+					if err := rows.Scan(&id, &mid); err != nil {
+						t.Fatalf("scan: %v", err)
+					}
+					rid, m := idStr(id), idStr(mid)
+					if !seenRow[rid] {
+						seenRow[rid] = true
+						arrivals = append(arrivals, arrival{rid, m, keyOf[m], pubSeq[m], batch})
+						trace = append(trace, fmt.Sprintf("%s:m%d", src, pubSeq[m]))
+						forwards++
+					}
+				}
+			}
+			batchMode := i%3 == 2
+			steps := nsrc*k + 2
+			if batchMode {
+				// every message gets its one delivery on an unordered source and is given
+				// back; then ONE run of the dead-letter sweep forwards them all together.
+				// Afterwards more messages of the same keys arrive one by one
+				steps = 0
+				src := "projects/p/subscriptions/batchsrc"
+				mkSub(e, &pubsubpb.Subscription{Name: src, Topic: T,
+					DeadLetterPolicy: &pubsubpb.DeadLetterPolicy{DeadLetterTopic: D, MaxDeliveryAttempts: 1},
+					RetryPolicy:      &pubsubpb.RetryPolicy{MinimumBackoff: durationpb.New(time.Second), MaximumBackoff: durationpb.New(time.Second)}})
+				for j := 0; j < 2+r.Intn(3); j++ {
+					resp := must(e.Pub.Publish(e.Ctx, &pubsubpb.PublishRequest{Topic: T, Messages: []*pubsubpb.PubsubMessage{{Data: []byte(fmt.Sprintf(`{"b":%d}`, j)), OrderingKey: "k"}}}))
+					pubSeq[resp.MessageIds[0]] = len(pubSeq)
+					keyOf[resp.MessageIds[0]] = "k"
+					time.Sleep(time.Millisecond)
+				}
+				var ids []string
+				for _, rm := range must(e.Sub.Pull(e.Ctx, &pubsubpb.PullRequest{Subscription: src, MaxMessages: 100, ReturnImmediately: true})).ReceivedMessages {
+					ids = append(ids, rm.AckId)
+				}
+				must(e.Sub.ModifyAckDeadline(e.Ctx, &pubsubpb.ModifyAckDeadlineRequest{Subscription: src, AckIds: ids, AckDeadlineSeconds: 0}))
+				time.Sleep(5 * time.Millisecond)
+				sweep := actions.NewDeadLetterDeliveries(actions.DeadLetterDeliveriesParams{MaxDeliveries: 100})
+				if err := e.Client.DoCtxTx(e.Ctx, nil, sweep.Execute); err != nil {
+					t.Fatalf("sweep: %v", err)
+				}
+				note("sweep", 1)
+				time.Sleep(5 * time.Millisecond)
+				// later arrivals, one at a time, by the same route (how a message published
+				// straight to the dead-letter topic is ordered relative to forwarded copies
+				// is left open, as in the histories: the code chains a message only to
+				// deliveries of messages of its own topic)
+				for j := 0; j < 1+r.Intn(3); j++ {
+					resp := must(e.Pub.Publish(e.Ctx, &pubsubpb.PublishRequest{Topic: T, Messages: []*pubsubpb.PubsubMessage{{Data: []byte(fmt.Sprintf(`{"late":%d}`, j)), OrderingKey: "k"}}}))
+					pubSeq[resp.MessageIds[0]] = len(pubSeq)
+					keyOf[resp.MessageIds[0]] = "k"
+					var lids []string
+					for _, rm := range must(e.Sub.Pull(e.Ctx, &pubsubpb.PullRequest{Subscription: src, MaxMessages: 100, ReturnImmediately: true})).ReceivedMessages {
+						lids = append(lids, rm.AckId)
+					}
+					if len(lids) > 0 {
+						must(e.Sub.ModifyAckDeadline(e.Ctx, &pubsubpb.ModifyAckDeadlineRequest{Subscription: src, AckIds: lids, AckDeadlineSeconds: 0}))
+					}
+					time.Sleep(5 * time.Millisecond)
+					must(e.Sub.Pull(e.Ctx, &pubsubpb.PullRequest{Subscription: src, MaxMessages: 100, ReturnImmediately: true}))
+					note("later", 0)
+					time.Sleep(time.Millisecond)
+				}
+			}
+			for step := 0; step < steps; step++ {
 				src := srcs[r.Intn(len(srcs))]
 				pr := must(e.Sub.Pull(e.Ctx, &pubsubpb.PullRequest{Subscription: src, MaxMessages: 1, ReturnImmediately: true}))
 				if len(pr.ReceivedMessages) == 0 {
@@ -93,26 +168,7 @@ func TestC05fwd(t *testing.T) {
 					must(e.Sub.ModifyAckDeadline(e.Ctx, &pubsubpb.ModifyAckDeadlineRequest{Subscription: src, AckIds: []string{x.AckId}, AckDeadlineSeconds: 600}))
 				}
 				_ = rm
-				// which copy has arrived is read off the dead-letter subscription's rows
-				// (a row that was not there before), not assumed
-				rows, err := e.RawDB().QueryContext(context.Background(), `SELECT d.id, d.message_id FROM deliveries d JOIN subscriptions s ON d.subscription_id = s.id WHERE s.name = ?`, Q)
-				if err != nil {
-					t.Fatalf("rows: %v", err)
-				}
-				for rows.Next() {
-					var id, mid any
-					if err := rows.Scan(&id, &mid); err != nil {
-						t.Fatalf("scan: %v", err)
-					}
-					rid, m := idStr(id), idStr(mid)
-					if !seenRow[rid] {
-						seenRow[rid] = true
-						arrivals = append(arrivals, arrival{rid, m, keyOf[m], pubSeq[m]})
-						trace = append(trace, fmt.Sprintf("%s:m%d", src[len(src)-4:], pubSeq[m]))
-						forwards++
-					}
-				}
-				rows.Close()
+				note(src[len(src)-4:], 0)
 				time.Sleep(5 * time.Millisecond)
 			}
 			// consume the dead-letter subscription without hurry: whatever is delivered
@@ -148,6 +204,9 @@ func TestC05fwd(t *testing.T) {
 					for b := 0; b < a; b++ {
 						if arrivals[b].key != arrivals[a].key || arrivals[b].pub >= arrivals[a].pub {
 							continue
+						}
+						if arrivals[a].batch > 0 && arrivals[a].batch == arrivals[b].batch {
+							continue // forwarded by the same sweep: which arrived first is not known
 						}
 						pairsChecked++
 						if !delivered[b] || unacked[b] {
